@@ -290,12 +290,19 @@ Section Model.
   Definition scale_rows (X : list (list T)) (means stds : list T) : list (list T) :=
     map (fun row => map (fun xms => div (sub (fst (fst xms)) (snd (fst xms))) (snd xms))
                         (combine (combine row means) stds)) X.
-  (* rescale_x: Err on a (numerically) constant column *)
+  (* rescale_x (after the repair af78fc0): Err on a column that is exactly constant
+     (`(1..n).all(|r| x[r][i] == x[0][i])`) or whose deviation is not >= epsilon
+     (`!(|std - 0| >= eps)`, which also rejects a NaN deviation) *)
+  Definition col_constant (X : list (list T)) (j : nat) : bool :=
+    match col j X with
+    | [] => true
+    | v0 :: rest => forallb (fun v => O.(oeqb) v v0) rest
+    end.
   Definition rescale_x (X : list (list T)) : option (list (list T) * list T * list T) :=
     let p := ncols X in
     let means := map (col_mean X) (seq 0 p) in
     let stds := map (col_std X) (seq 0 p) in
-    if existsb (fun s => ltb (abs (sub s zero)) c_eps) stds then None
+    if existsb (fun j => col_constant X j || negb (leb c_eps (abs (sub (col_std X j) zero)))) (seq 0 p) then None
     else Some (scale_rows X means stds, means, stds).
 
   Definition lasso_valid (n p : nat) (ylen : nat) (alpha tol : T) (max_iter : nat) : bool :=
